@@ -115,6 +115,15 @@ def build(case):
         leaves += c03.facet_leaves(kind, params)
     deck = probe_deck([sur], leaves, title=f'C04 {attach} {rot} {kind}')
     probe_cells = [c for c in deck.cells if c.id != 900]
+    if attach in ('surf-tr', 'trcl-num') and rng.random() < 0.2:
+        # displacement components that are zero written as J
+        org = [float(v) for v in motion.o]
+        for k in rng.sample(range(3), rng.randint(1, 2)):
+            org[k] = 0.0
+        motion = type(motion)(org, motion.b)
+        jump_disp = True
+    else:
+        jump_disp = False
     if attach == 'surf-tr':
         trs.append(tr_card(rng, 7, motion, spelling))
         sur.tr = 7
@@ -128,11 +137,16 @@ def build(case):
         # inline matrix in abbreviated form: J placeholders and nJ shorthand
         # between the parentheses
         form = rng.choice(['inline-6j-rows', 'inline-6j-cols', 'inline-5j',
-                           'inline-6j-rows', 'inline-9'])
+                           'inline-6j-rows', 'inline-9', 'inline3-shorthand'])
+        if form == 'inline3-shorthand':
+            motion = tr_spec(rng, motion, form).motion
+            spec_sh = tr_spec(rng, motion, 'inline3-shorthand')
+            motion = spec_sh.motion
         if rot != 'generic' and form == 'inline-5j':
             form = 'inline-6j-rows'
         for cel in probe_cells:
-            cel.trcl = tr_spec(rng, motion, form)
+            cel.trcl = spec_sh if form == 'inline3-shorthand' else \
+                tr_spec(rng, motion, form)
     elif attach in ('trcl-inline12', 'trcl-inline3', 'trcl-inline13',
                     'trcl-star'):
         form = attach.split('-')[1]
@@ -218,6 +232,9 @@ def build(case):
                 return (expr[0],) + tuple(swap(sub) for sub in expr[1:])
             for cel in deck.cells:
                 cel.geom = swap(cel.geom)
+    if jump_disp and trs:
+        trs[0].origin = [None if v == 0.0 else v for v in trs[0].origin]
+        deck.tags.add('tr.displacement-jumps')
     deck.trs = trs
     deck.tags.update({f'attach.{attach}', f'rot.{rot}', f'kind.{kind}',
                       f'{kind}.{fam}'})
